@@ -381,6 +381,9 @@ func runC07(c *Ctx, r *Report) {
 		}
 	}
 
+	c06r1(c, r) // printed text is the input record: items must not be overwritten after being read
+	c09r1(c, r) // selections are printed in the order they were made: re-selecting must not re-stamp
+
 	// ---------------- R5 ----------------
 	r.rule("C07-R5", "A (must-pass-through)", "P1",
 		"in the item builder that transforms the text (--with-nth), every path returning true stores the record's bytes into Item.origText",
